@@ -112,6 +112,9 @@ def add_memory_vars(ds, d):
     ds['mem_cell_id'] = xarray.DataArray((numpy.arange(n, dtype='i8') * 1000003 + 1_700_000_000_000).reshape(shape), dims=fdims,
                                          attrs={'long_name': 'global cell identifier'})
     ds['mem_f4'] = xarray.DataArray((numpy.arange(n, dtype='f4') / 8 + 3).reshape(shape), dims=fdims)
+    # a date per cell (time of the last observation): can hold a missing value, so it is blanked outside the region
+    ds['mem_when'] = xarray.DataArray((numpy.datetime64('2020-01-01T00:00:00', 'ns') + numpy.arange(n) * numpy.timedelta64(3600, 's')).reshape(shape),
+                                      dims=fdims, attrs={'long_name': 'time of last observation'})
     return ds
 
 
@@ -279,6 +282,11 @@ def expected_grid_var(f, name, masks, bounds):
     vals = cropped.values
     if vals.dtype.kind == 'f':
         fill = numpy.nan
+    elif vals.dtype.kind in 'Mm':
+        # dates and durations have a missing value of their own (NaT)
+        mname, mdims, arr = use
+        m = xarray.DataArray(arr, dims=mdims).isel({dname: slice(*bounds[dname]) for dname in mdims})
+        return 'masked', cropped.where(m), mname
     elif '_FillValue' in a.attrs:
         fill = a.attrs['_FillValue']
     elif 'missing_value' in a.attrs:
@@ -299,6 +307,10 @@ def same_values(a, b):
     a, b = numpy.asarray(a), numpy.asarray(b)
     if a.shape != b.shape:
         return False
+    if a.dtype.kind in 'Mm' or b.dtype.kind in 'Mm':
+        if a.dtype.kind != b.dtype.kind:
+            return False
+        return bool(((a == b) | (numpy.isnat(a) & numpy.isnat(b))).all())
     if a.dtype.kind == 'f' or b.dtype.kind == 'f':
         return bool(numpy.array_equal(a.astype('f8'), b.astype('f8'), equal_nan=True))
     return bool(numpy.array_equal(a, b))
